@@ -102,8 +102,10 @@ run in the no-default-features (sequential) build. Non-trivial = file with >= 2 
         // many small objects so that several containers appear
         let (revs, latest) = if r.chance(1, 3) { let (mut revs, latest) = gen_history(&mut r, 1); revs.truncate(2); (revs, latest) } else { let o = gen_aobjects(&mut r, 14, 0); let e = gen_trailer_extra(&mut r, &o); (vec![Revision { objects: o.clone(), trailer_extra: e }], o) };
         let mut style = gen_style(&mut r); style.xref = XrefStyle::Stream; style.objstm = true; style.compress = r.chance(1, 4); style.junk_before_header = false;
-        let which = r.usize(revs.len());
-        let w = write_file_with(&mut r, &mut counters, &style, "1.7", &revs, &|ri| ri == which);
+        // containers in one revision, or in all of them (a number is then a member of several containers)
+        let which = r.usize(revs.len() + 1);
+        if which == revs.len() && revs.len() > 1 { c.count("objstm.containers_in_all_revisions"); }
+        let w = write_file_with(&mut r, &mut counters, &style, "1.7", &revs, &|ri| which == revs.len() || ri == which);
         let helper_from = latest.keys().map(|k| k.0).max().unwrap() + 1;
         let base = match load_with_order(&w.bytes, None) { Ok(d) => d, Err(e) => { c.oracle_fail("load-error", &e, json!({"file": hex(&w.bytes)})); continue; } };
         let n = LAST_CONTAINERS.lock().unwrap().len();
